@@ -399,8 +399,21 @@ def autotool(selector, undo=False):
     if undo:
         rval = rval.wrap_functions(_untooler)
     else:
-        rval = rval.wrap_functions(_tooler)
-        verify(rval)
+        tooled_fns = []
+
+        def _tool(fn, captures):
+            fn = _tooler(fn, captures)
+            tooled_fns.append((fn, captures))
+            return fn
+
+        try:
+            rval = rval.wrap_functions(_tool)
+            verify(rval)
+        except BaseException:
+            # The selector is refused: untool whatever was tooled so far
+            for fn, captures in reversed(tooled_fns):
+                _untooler(fn, captures)
+            raise
     return rval
 
 
